@@ -1,5 +1,5 @@
 --------------------------- MODULE MC_TryFromRepr ---------------------------
-EXTENDS TryFromRepr, Json
+EXTENDS TryFromRepr, DiscStep, Json
 CONSTANTS MaxVariants, EmitCases, Kinds
 VARIABLES vs, attrs
 
@@ -39,6 +39,18 @@ Valid == LET ds == Discs(vs)
 P_C12_Inverse    == Valid => Inverse(vs)
 P_C12_DocInverse == Valid => DocInverse(vs)
 P_C12_Repr       == ReprRight(attrs)
+
+(* the unbounded machine of DiscCounter.tla (Apalache / TLAPS), folded over this concrete enum: it must compute what   *)
+(* both the documented rule and the transcription of try_from.rs compute - this ties the machine that is proved for     *)
+(* enums of any length to the module whose cases are replayed into the real derive                                     *)
+RECURSIVE RunMachine(_, _, _)
+RunMachine(w, j, s) ==
+    IF j > Len(w) THEN <<>>
+    ELSE LET t == IF w[j].disc.op = "none" THEN DImplicit(s) ELSE DExplicit(s, Eval(w[j].disc), 1)
+         IN <<t>> \o RunMachine(w, j + 1, t)
+P_C12_Machine == LET run == RunMachine(vs, 1, DInit) IN
+                 /\ [j \in 1..Len(vs) |-> run[j].docOut] = Discs(vs)
+                 /\ (Parenthesised => [j \in 1..Len(vs) |-> run[j].implOut] = Consts(vs))
 
 CaseRec == [vs |-> vs, attrs |-> attrs, repr |-> DocReprTy(attrs), discs |-> Discs(vs),
             consts |-> Consts(vs)]
